@@ -114,6 +114,9 @@ class Caller(Entity):
         super().__init__(name)
 
     def handle_event(self, event):
+        h = event.context.get("hops", 0)
+        if h > 0:
+            return [Event(time=self.now, event_type=event.event_type, target=self, context={"fn": event.context["fn"], "hops": h - 1})]
         r = event.context["fn"]()
         return r if isinstance(r, list) else []
 
@@ -240,6 +243,8 @@ class Hub:
         self.n_deliveries = 0
         self.hops_at: dict[int, set] = {}  # ns -> hop counts of offers delivered to a front
         self.arrival = {a["id"]: a for a in case.get("arrivals", [])}
+        self.live: dict = {}  # id -> (event object most recently offered to a queue-fronted stage, its monitor)
+        self.pending: dict = {}  # id -> pre-run arrival event not delivered yet (direct arrivals only)
         self.reoffer_fronts: set = set()  # entities that legitimately deliver an id to themselves again (PooledCycleResource)
 
     def bind(self, entity, mon, role):
@@ -251,6 +256,27 @@ class Hub:
             return
         self._seen.add(key)
         self.res.add(oracle, component, shape, detail, witness)
+
+    def cancel(self, iid):
+        """The sender gives up on request `iid`: Event.cancel() on the object it handed over."""
+        ent = self.live.get(iid)
+        if ent is None:
+            ev = self.pending.get(iid)
+            if ev is not None:
+                ev.cancel()
+                self.res.count("cancels_before_arrival")
+            return []
+        ev, mon = ent
+        st = mon.state.get(iid)
+        if st == "WAIT":
+            head = mon.rp.inner.peek()
+            self.res.count("cancels_while_waiting_at_head" if head is ev else "cancels_while_waiting_behind_head")
+        elif st == "POPPED":
+            self.res.count("cancels_while_in_handoff")
+        else:
+            self.res.count("cancels_after_start_or_refusal")
+        ev.cancel()
+        return []
 
     def on_event(self, ev):
         self.n_deliveries += 1
@@ -288,7 +314,7 @@ class QRMon:
     event on its way downstream) | DONE | REJ2 (worker refused after dequeue, counted) | RENEGED.
     """
 
-    STATES = ("REJ", "WAIT", "POPPED", "START", "FIN", "DONE", "REJ2", "RENEGED")
+    STATES = ("REJ", "WAIT", "POPPED", "START", "FIN", "DONE", "REJ2", "RENEGED", "WITHDRAWN")
 
     def __init__(self, hub: Hub, name: str, spec: dict, down: Entity):
         self.hub = hub
@@ -313,6 +339,7 @@ class QRMon:
         self.varying = spec.get("model") == "dynamic" or self.kind == "shifted"
         self.hw = None
         self.overcommitted: set = set()
+        self.ev: dict = {}  # id -> the event object this stage's queue holds / held
         self.polled_while_full: set = set()
         self.over_reported = False
         self.rsink = None
@@ -492,6 +519,9 @@ class QRMon:
                 return
             self.offers += 1
             md = ev.context["metadata"]
+            self.ev[iid] = ev
+            self.hub.live[iid] = (ev, self)
+            self.hub.pending.pop(iid, None)
             self.weight[iid] = md.get("weight", 1) if self.weighted else 1
             self.hub.hops_at.setdefault(t, set()).add(md.get("hops", 0))
         elif role == "worker":
@@ -620,6 +650,15 @@ class QRMon:
             hub.add(oracle, comp, "in-pipeline-" + shape, detail, w)
         self.audit.violations.clear()
         if n["POPPED"]:
+            # A request its sender cancelled while it waited is still handed out by the queue, the
+            # driver forwards it and the engine skips the cancelled event: it never starts.  That is
+            # the sender's withdrawal, not lost work.
+            for i in [i for i, s in self.state.items() if s == "POPPED"]:
+                e = self.ev.get(i)
+                if e is not None and e.cancelled:
+                    self._set(i, "WITHDRAWN", ("POPPED",), t, "withdrawn")
+                    hub.res.count("cancelled_items_dequeued_and_skipped")
+        if n["POPPED"]:
             ids = [i for i, s in self.state.items() if s == "POPPED"][:5]
             hub.add("ledger", self.cls, "dequeued-never-started", f"ids {ids} left the queue but never reached the worker by the end of t={t}ns", w)
         if n["FIN"]:
@@ -655,7 +694,8 @@ class QRMon:
                 sched_free = False
                 if self.sched is not None and not free:
                     sched_free = ins < self.sched.capacity_at(t / 1e9)
-                if free or sched_free:
+                live_wait = sum(1 for i, s in self.state.items() if s == "WAIT" and not (i in self.ev and self.ev[i].cancelled))
+                if (free or sched_free) and live_wait - internal > 0:
                     raised = self.varying and self.limit_raised_since_pop
                     if sched_free:
                         shape, comp = "scheduled-capacity-free-but-current-capacity-stale", self.cls
@@ -665,6 +705,8 @@ class QRMon:
                         shape, comp = "burst-partially-idle-worker", "QueueDriver"
                     else:
                         shape, comp = "idle-worker-with-waiting-items", "QueueDriver"
+                    if n["WITHDRAWN"] and comp == "QueueDriver":
+                        shape += "-after-cancelled-item-dequeued"
                     when = "at quiescence" if final else "time passes"
                     hub.add(
                         "stranded",
@@ -1231,8 +1273,15 @@ def run_pipeline(case: dict) -> Result:
             ctx["created_at"] = t
             sim.schedule(Event(time=t, event_type="Fire", target=inj, context={"emit": [(head, ctx)]}))
         else:
-            sim.schedule(Event(time=t, event_type="Req", target=head, context=ctx))
+            ev0 = Event(time=t, event_type="Req", target=head, context=ctx)
+            if a.get("hops", 0) == 0:
+                hub.pending[a["id"]] = ev0
+            sim.schedule(ev0)
         n_arr += 1
+    for c in case.get("cancels", []):
+        tk, cid = c[0], c[1]
+        hops = c[2] if len(c) > 2 else 0
+        sim.schedule(Event(time=Instant(ns(tk)), event_type="Cancel", target=caller, context={"fn": (lambda i=cid: hub.cancel(i)), "hops": hops}))
     for tk in case.get("keepalive", []):
         sim.schedule(Event(time=Instant(ns(tk)), event_type="Tick", target=null))
     for m in mons:
@@ -1354,5 +1403,12 @@ def gen_case(rng: random.Random, kinds, topo="single") -> dict:
     for i in range(nst):
         pool = kinds if i == nst - 1 else tuple(k for k in kinds if k != "threadpool") or kinds
         stages.append(gen_stage(rng, rng.choice(pool), horizon))
+    arrivals = gen_arrivals(rng, n, horizon)
+    cancels = []
+    if rng.random() < 0.35:
+        for _ in range(rng.choice([1, 1, 2, 3])):
+            a = rng.choice(arrivals)
+            cancels.append([a["t"] + rng.choice([0, 0, 1, 1, 2, 3, 4, 6, 8]), a["id"], rng.choice([0, 0, 0, 1, 2, 4])])
+        cancels.sort()
     ka = sorted({rng.randrange(0, horizon + 30) for _ in range(rng.choice([0, 1, 3, 6]))} | {horizon + 40})
-    return {"topo": topo, "stages": stages, "arrivals": gen_arrivals(rng, n, horizon), "keepalive": ka, "seed": rng.randrange(1 << 30)}
+    return {"topo": topo, "stages": stages, "arrivals": arrivals, "cancels": cancels, "keepalive": ka, "seed": rng.randrange(1 << 30)}
